@@ -965,3 +965,27 @@ package iavl
 //@   ensures [overlay] err == nil && !(old(tree.ndb.firstVersion) <= old(wv) && old(wv) <= old(tree.ndb.latestVersion)) && !tree.skipFastStorageUpgrade ==> tree.unsavedFastNodeAdditions != nil && tree.unsavedFastNodeRemovals != nil && smhas[tree.unsavedFastNodeAdditions] == emptyKeys && smhas[tree.unsavedFastNodeRemovals] == emptyKeys
 //@   ensures [lastsaved] err == nil ==> tree.lastSaved != nil && tree.lastSaved != tree.ImmutableTree && tree.lastSaved.version == old(wv)
 //@   modifies *
+
+// ---------------------------------------------------------------- iterator.go: the tree-walk iterator (C08)
+//
+// Next advances to the next LEAF of the range-pruned walk: afterwards either
+// the iterator stands on a leaf whose key lies in the walk's domain (key and
+// value are that leaf's), or the walk is over / failed and the iterator is
+// invalid — and stays so: without a walk (t == nil) Next changes nothing.
+//@ func (*Iterator).Next(iter)
+//@   props C08
+//@   requires iter != nil
+//@   requires iter.t != nil ==> iter.t.delayedNodes != nil && iter.t.tree != nil && iter.t.tree.ndb != nil && !iter.t.post
+//@   requires iter.t != nil ==> all(*iter.t.delayedNodes, e, e.delayed && (e.node != nil ==> allocated(e.node) && valid(e.node) && bstT(view(e.node))))
+//@   ensures [latch] old(iter.t) == nil ==> iter.t == nil && iter.valid == old(iter.valid) && iter.key == old(iter.key) && iter.value == old(iter.value) && iter.err == old(iter.err)
+//@   ensures [over] old(iter.t) != nil && iter.t == nil ==> !iter.valid
+//@   ensures [same-walk] iter.t != nil ==> iter.t == old(iter.t) && iter.valid == old(iter.valid)
+//@   ensures [inrange] iter.t != nil ==> inR(ord(iter.key), iter.t.start != nil, ord(iter.t.start), iter.t.end != nil, ord(iter.t.end), iter.t.inclusive)
+//@   ensures [stackinv] iter.t != nil ==> all(*iter.t.delayedNodes, e, e.delayed && (e.node != nil ==> allocated(e.node) && valid(e.node) && bstT(view(e.node))))
+//@   modifies *
+
+//@ func (*Iterator).Close(iter) (err)
+//@   props C08
+//@   requires iter != nil
+//@   ensures [closed] iter.t == nil && !iter.valid && err == old(iter.err)
+//@   modifies iter.t, iter.valid
